@@ -294,7 +294,7 @@ class WEval:
                         return ("unit",)
             raise Unk("for loop")
         if t == "closure":
-            return ("closure",)
+            return ("closure", n[2], n[3], env)
         if t == "match":
             raise Unk("match")
         raise Unk(f"expression {t}")
@@ -309,6 +309,11 @@ class WEval:
                 elif H.tag(s[1]) == "ptup" and isinstance(v, tuple) and v and v[0] == "tuple" and len(v[1]) == len(s[1][1]) and all(H.tag(q) == "bind" for q in s[1][1]):
                     for q, x in zip(s[1][1], v[1]):
                         env2[q[1]] = x
+                elif H.tag(s[1]) == "pslice" and s[1][2] is None and isinstance(v, tuple) and v and v[0] in ("bytes", "buf") and all(H.tag(q) in ("bind", "wild") for q in s[1][1] + s[1][3]):
+                    # `let [hi, lo] = x.to_be_bytes();` — each name is the byte at its position
+                    for i, q in enumerate(s[1][1] + s[1][3]):
+                        if H.tag(q) == "bind":
+                            env2[q[1]] = ("byte", v, i)
                 else:
                     raise Unk("let pattern")
             elif s[0] in ("semi", "expr"):
@@ -356,6 +361,27 @@ class WEval:
         p = H.call_path(n) or ""
         args = H.call_args(n)
         last = p.split("::")[-1]
+        callee = H.strip(H.strip(n)[2])
+        if H.tag(callee) == "local" and callee[1] in env and env[callee[1]][0] == "closure" and len(env[callee[1]]) == 4:
+            # a closure handed in as a parameter (`write_header(&mut v, opcode, size)`): its body runs in the environment it captured,
+            # with writer arguments aliased to the caller's buffers
+            _c, params, body, cenv = env[callee[1]]
+            inner = dict(cenv)
+            for q, a in zip(params, args):
+                if H.tag(q) != "bind":
+                    raise Unk("closure parameter pattern")
+                wn = self.writer_name(a, env)
+                inner[q[1]] = ("walias", wn, env) if wn else self.ev(a, env, pc, st)
+            if self.depth > 8:
+                raise Unk("inlining depth")
+            self.depth += 1
+            try:
+                try:
+                    return self.ev(body, inner, pc, st)
+                except Return as r:
+                    return r.value
+            finally:
+                self.depth -= 1
         if last == "with_capacity":
             try:
                 self.ev(args[0], env, pc, st)
@@ -364,6 +390,10 @@ class WEval:
             return ("vecbuf", {}, [("aff", 0, 0, "usize")])
         if last in ("Ok", "Some"):
             return self.ev(args[0], env, pc, st) if args else ("unit",)
+        if p in ("std::convert::From::from", "std::convert::Into::into") and len(args) == 1:
+            ga = H.call_gargs(n)
+            if len(ga) >= 2 and ga[0] in INT_TYPES and ga[1] in INT_TYPES:
+                return self.cast(self.ev(args[0], env, pc, st), ga[0], pc, st)
         if last == "pin" and "Box" in p and args:
             a = H.strip(args[0])
             if H.tag(a) == "closure":
